@@ -100,6 +100,12 @@ func GetBox(txData []byte) (*Box, error) {
 	if err != nil {
 		return nil, err
 	}
+	// "null" is a valid json value for a pointer. Every user of the box calls methods of the sub transactions
+	for _, subTx := range box.SubTxList {
+		if subTx == nil {
+			return nil, ErrNilSubTx
+		}
+	}
 	return box, nil
 }
 
